@@ -68,7 +68,8 @@ def run(ctx):
     jobs = [("mc.grids:wh_grid", list(range(len(grids.ALL_INTERVAL_SETS)))),
             ("mc.grids:sb_grid", grids.sb_configs(ctx.tier)),
             ("mc.grids:ci_grid", ci_cfgs),
-            ("mc.grids:far_grid", [60, 15])]
+            ("mc.grids:far_grid", [60, 15]),
+            ("mc.grids:rt_grid", [(a, min(a + 7, 120)) for a in range(1, 121, 8)])]
     modes = ("rebuilt", "blocked")
     # sanity: the two pools really run different implementations
     flags = {}
